@@ -173,6 +173,23 @@ func execImpl() common.ExecImpl {
 			e := newExEnv(cfg, rec)
 			return exContext(e).ExecuteTarget(asTarget(exPkg{e, cfg.Targets[i], root}, i))
 		},
+		Session: func(cfg *common.ExecConfig, root string) *common.ExecSession {
+			e := newExEnv(cfg, &common.ExecRecorder{})
+			c := exContext(e)
+			return &common.ExecSession{
+				Run: func(i int, rec *common.ExecRecorder) error {
+					e.rec = rec
+					return c.ExecuteTarget(asTarget(exPkg{e, cfg.Targets[i], root}, i))
+				},
+				Order: func() []int {
+					ids := []int{}
+					for _, t := range c.Order {
+						ids = append(ids, e.ids[t])
+					}
+					return ids
+				},
+			}
+		},
 		RunAll: func(cfg *common.ExecConfig, root string) error {
 			e := newExEnv(cfg, &common.ExecRecorder{})
 			var pkgs []generator.Target
